@@ -26,6 +26,18 @@ T = {
                 technique="runtime monitor: lock-step comparison of real Grid objects on simulated ranks with a one-array numpy model after every operation; exhaustive operation sequences to bounded length plus random histories; refusals observed",
                 text="All operation sequences up to length 4 (quick) / 6 (thorough) over a 7-symbol alphabet on small handler and swapper configurations plus long random histories; layout name and data block compared with the model after every operation on every rank.",
                 note=SIM + "; exhaustive only up to the stated history length"),
+    "C07": dict(level="exploration", engine="refmath", design="3/C07",
+                technique="runtime differential oracle: every evaluation entry point of the real spline classes compared with an independent de Boor/scipy reference on the knot vector the path really uses, over generated spaces, coefficient vectors and hostile points",
+                text="Hundreds (quick) to tens of thousands (thorough) of generated spline spaces; every entry point, derivative order and point kind compared with an independent evaluator at c*eps*local scale; basis identities; fast vs general path.",
+                note=REF),
+    "C08": dict(level="exploration", engine="refmath", design="3/C08",
+                technique="runtime oracle: interpolation identities (data at interpolation points, dense reference solve, polynomial reproduction, bit-identical periodic wrap) on the real interpolator classes over generated spaces and data",
+                text="Generated 1-D/2-D spaces and data incl. badly scaled and complex; identities checked with tolerance scaled by the measured condition number; ill-conditioned spaces skipped and counted.",
+                note=REF),
+    "C09": dict(level="exploration", engine="refmath", design="3/C09",
+                technique="runtime oracle: quadrature weights and stored basis integrals of the real classes compared with exact Gauss-Legendre integration of the interpolant / basis functions over generated spaces",
+                text="q.u vs exact integral of the interpolant, weight sum, equal weights, stored integrals vs exact, for generated spaces incl. non-uniform periodic and tiny uniform-cubic spaces.",
+                note=REF + "; for periodic spaces only the folded (periodic) basis integrals are demanded"),
     "C20": dict(level="exploration", engine="direct+simmpi", design="3/C20",
                 technique="runtime oracle: brute-force divisor enumeration (exhaustive box + random), sys.monitoring line budget for termination, layouts built and transposed on the chosen grid under simulated MPI",
                 text="Exhaustive comparison with brute force inside a bounded box, random sampling far beyond, termination judged in executed lines; the chosen grid is used to build and exercise the standard layouts.",
